@@ -5,6 +5,20 @@ mod utf8;
 pub use json_escape::{json_escape, json_unescape};
 pub use json_parse::{eat_whitespace, verify_char};
 
+/// Convert a length, count or offset to the u16 field the binary formats store it in,
+/// refusing values that do not fit
+#[inline]
+pub(crate) fn to_u16(n: usize) -> Result<u16, crate::error::Error> {
+    u16::try_from(n).map_err(|_| crate::error::InnerError::OutOfRange(n).into())
+}
+
+/// Convert a length to the u32 field the binary formats store it in, refusing values
+/// that do not fit
+#[inline]
+pub(crate) fn to_u32(n: usize) -> Result<u32, crate::error::Error> {
+    u32::try_from(n).map_err(|_| crate::error::InnerError::OutOfRange(n).into())
+}
+
 #[inline]
 pub(crate) fn put(
     output: &mut [u8],
